@@ -265,6 +265,54 @@ def shard_faults(arg):
     return st
 
 
+def shard_handbuilt(arg):
+    """Part C: objects the caller built by hand (UpgradedParameter / UpgradedSignature without provenance) are not touched by
+    retrievals and operations on *other* objects -- nothing is shared behind the scenes."""
+    import functools
+    import inspect
+    import sigtools
+    from sigtools import signatures
+    st = Stats()
+    P = signatures.UpgradedParameter
+    mine = [P('zz1', inspect.Parameter.POSITIONAL_OR_KEYWORD), P('zz2', inspect.Parameter.KEYWORD_ONLY, default=1)]
+    mysig = signatures.UpgradedSignature(mine)
+
+    def view():
+        return ([(p.name, list(p.sources), dict(p.source_depths)) for p in mine],
+                [(p.name, list(p.sources), dict(p.source_depths)) for p in mysig.parameters.values()], dict(mysig.sources))
+    before = view()
+    srcs = ['def g(**kwargs):\n    return 0\n', 'def g(a, *args, **kwargs):\n    return 0\n', 'def g(a, b=1, *, c=2, **k):\n    return 0\n']
+    for src in srcs:
+        g = realfn.load(src)
+        try:
+            fn = g['g']
+            targets = [functools.partial(fn, extra=1), functools.partial(fn, extra=1, more=2), fn]
+            if 'a' in inspect.signature(fn).parameters:
+                targets += [functools.partial(fn, 1), functools.partial(fn, a=1)]
+            for t in targets:
+                for getter in (sigtools.signature, signatures.signature):
+                    st.case()
+                    try:
+                        r = getter(t)
+                        for op in (lambda: signatures.merge(r, r), lambda: signatures.mask(r, 0), lambda: signatures.embed(signatures.signature(fn), r)):
+                            try:
+                                op()
+                            except ValueError:
+                                pass
+                    except ValueError:
+                        pass
+                    now = view()
+                    if now != before:
+                        st.fail('C16/C/hand-built-object-changed', {'part': 'C', 'source': src},
+                                'after %s(%r) for\n%s: a hand-built parameter / signature that took no part in it changed from %r to %r' % (
+                                    getter.__module__, t, src, before, now))
+                        return st
+                    st.nontriv(('C', src, repr(type(t)), getter.__module__))
+        finally:
+            realfn.unload(g)
+    return st
+
+
 def tasks(insts, exc_names, per_signature):
     out = []
     for name, inner, outer in insts:
@@ -290,13 +338,14 @@ def run(ctx):
     allx = [e.__name__ for e in EXC_TYPES]
     if ctx.quick:
         # two instances per template; one injection per distinct crossing signature; 3 exception types
-        work = tasks(chosen, ['Injected', 'InjectedBase', 'AttributeError', 'ValueError'], 1)
+        work = tasks(chosen, ['Injected', 'InjectedBase', 'AttributeError', 'ValueError', 'OSError'], 1)
     else:
         # every crossing index on the chosen instances (Injected), and the first 2 occurrences of every
         # distinct crossing signature on ALL instances with all exception types
         work = tasks(chosen, ['Injected'], None) + tasks(insts, allx, 2)
         total.exhaustive['crash points: every crossing index k of every (target, action) of %d scenario instances' % len(chosen)] = len(chosen)
     total.merge(ctx.pmap(shard_faults, work))
+    total.merge(ctx.pmap(shard_handbuilt, [0]))
     na = ctx.pick(60000, 1200000)
     total.merge(ctx.pmap(shard_algebra, [(ctx.seed * 7919 + s * 104729, 1000003 + 2 * s, na // 32) for s in range(32)]))
     nh = ctx.pick(2400, 32000)
@@ -305,6 +354,9 @@ def run(ctx):
 
 
 def replay(case, stats):
+    if case.get('part') == 'C':
+        stats.merge(shard_handbuilt(0))
+        return
     if case.get('part') == 'B':
         exc = next(e for e in EXC_TYPES if e.__name__ == case['exception'])
         one_fault(case['scenario'], case['inner'], case['outer'], case.get('source', ''), case['target'], case['action'], exc, case['k'], stats)
